@@ -114,17 +114,67 @@ func (o *Once) DoAt(site string, f func()) {
 	}
 }
 
-type WaitGroup struct{ real sync.WaitGroup }
+// WaitGroup is a model of sync.WaitGroup whose one scheduling-dependent
+// behaviour is explicit: a waiter released by the counter reaching zero is
+// runnable but has not yet returned, and if the group is used again (counter or
+// waiters non-zero) before it runs, the real implementation panics with "sync:
+// WaitGroup is reused before previous Wait has returned". The real one decides
+// that by the Go scheduler (which the explorer does not control: the same
+// decision list crashed or not); here the released waiter parks at a second
+// Point, so the explorer decides, and the panic is raised exactly when the real
+// re-check (state != 0 after wake-up) would fail.
+type WaitGroup struct {
+	mu      sync.Mutex
+	n       int
+	waiting int
+	ch      chan struct{}
+}
 
-func (w *WaitGroup) Add(n int) { w.real.Add(n) }
-func (w *WaitGroup) Done()     { w.real.Done() }
-func (w *WaitGroup) Wait()     { w.WaitAt("") }
+func (w *WaitGroup) Add(d int) {
+	w.mu.Lock()
+	w.n += d
+	if w.n < 0 {
+		w.mu.Unlock()
+		panic("sync: negative WaitGroup counter")
+	}
+	if w.n == 0 && w.waiting > 0 {
+		close(w.ch)
+		w.ch, w.waiting = nil, 0
+	}
+	w.mu.Unlock()
+}
+func (w *WaitGroup) Done() { w.Add(-1) }
+func (w *WaitGroup) Wait() { w.WaitAt("") }
 
 func (w *WaitGroup) WaitAt(site string) {
 	if site == "" {
 		site = vs.CallerSite(3)
 	}
 	vs.Point("W:" + site)
-	w.real.Wait()
+	w.mu.Lock()
+	if w.n == 0 {
+		w.mu.Unlock()
+		return
+	}
+	if w.ch == nil {
+		w.ch = make(chan struct{})
+	}
+	ch := w.ch
+	w.waiting++
+	w.mu.Unlock()
+	<-ch
+	vs.Point("Wr:" + site)
+	w.mu.Lock()
+	reused := w.n != 0 || w.waiting != 0
+	w.mu.Unlock()
+	if reused {
+		panic("sync: WaitGroup is reused before previous Wait has returned")
+	}
 }
-func (w *WaitGroup) Go(f func()) { w.real.Go(f) }
+func (w *WaitGroup) Go(f func()) {
+	w.Add(1)
+	go func() {
+		defer w.Done()
+		f()
+	}()
+}
